@@ -525,6 +525,8 @@ func evalWhileLoopStmt(vm *r.VM, node *syntax.WhileLoopStmt) error {
 	// set context's current scope with new one
 
 	for {
+		// the condition is evaluated again after every pass: it belongs to the 每当 line
+		vm.SetCurrentLine(node.GetCurrentLine())
 		// #1. first execute expr
 		trueExpr, err := evalExpression(vm, node.TrueExpr)
 		if err != nil {
